@@ -161,6 +161,8 @@ func liveCase(c *rp.Ctx, i int, cs *amf0x.Case) rp.Result {
 		if err != nil {
 			return fmt.Sprintf("MarshalBinary of node #%d failed: %v", st.N, err)
 		}
+		// the bytes belong to the caller: later calls of the history must not change them
+		c.Hold(i, fmt.Sprintf("bytes MarshalBinary returned for node #%d at step %d", st.N, k), got)
 		df := ld.DiffFree(got, want, free)
 		if df == "" {
 			return ""
